@@ -1,0 +1,108 @@
+//! Verification hooks (feature `verif-hooks`, default off, add-only).
+//!
+//! (H1) A tamper point in [`super::Region::assign_advice`], driven by a thread-local plan:
+//! the `i`-th advice value handed to the assignment backend during a synthesis on this
+//! thread can be replaced by a function of the honest value. Only the value written into
+//! the assignment table is replaced (at the point where it is converted to `Rational<F>`);
+//! the returned `AssignedCell` keeps the honest value.
+
+use std::{any::Any, cell::RefCell};
+
+use ff::Field;
+
+use super::Value;
+use crate::utils::rational::Rational;
+
+/// The function applied to a targeted advice value.
+pub type Fault<F> = Box<dyn Fn(F) -> F>;
+
+/// A tamper plan for one synthesis.
+pub struct TamperPlan<F: Field> {
+    /// Number of (known) advice values handed to the backend so far.
+    pub counter: usize,
+    /// `(index, fault)`: replace the `index`-th advice value by `fault(value)`.
+    pub targets: Vec<(usize, Fault<F>)>,
+    /// Honest and replaced value of every target that was hit, as `(index, before, after)`.
+    pub hits: Vec<(usize, F, F)>,
+}
+
+impl<F: Field> TamperPlan<F> {
+    /// A plan with the given targets.
+    pub fn new(targets: Vec<(usize, Fault<F>)>) -> Self {
+        TamperPlan {
+            counter: 0,
+            targets,
+            hits: vec![],
+        }
+    }
+}
+
+impl<F: Field> std::fmt::Debug for TamperPlan<F> {
+    fn fmt(&self, f: &mut std::fmt::Formatter<'_>) -> std::fmt::Result {
+        write!(
+            f,
+            "TamperPlan(counter={}, targets={})",
+            self.counter,
+            self.targets.len()
+        )
+    }
+}
+
+thread_local! {
+    static PLAN: RefCell<Option<Box<dyn Any>>> = const { RefCell::new(None) };
+}
+
+/// Installs a plan on this thread (replacing any previous one).
+pub fn set_plan<F: Field>(plan: TamperPlan<F>) {
+    PLAN.with(|p| *p.borrow_mut() = Some(Box::new(plan)));
+}
+
+/// Removes and returns the plan of this thread.
+pub fn take_plan<F: Field>() -> Option<TamperPlan<F>> {
+    PLAN.with(|p| p.borrow_mut().take())
+        .and_then(|b| b.downcast::<TamperPlan<F>>().ok())
+        .map(|b| *b)
+}
+
+/// The number of advice values counted so far by the installed plan (0 if none).
+pub fn counter<F: Field>() -> usize {
+    PLAN.with(|p| {
+        p.borrow()
+            .as_ref()
+            .and_then(|b| b.downcast_ref::<TamperPlan<F>>())
+            .map(|pl| pl.counter)
+            .unwrap_or(0)
+    })
+}
+
+/// Called by `Region::assign_advice` on every advice value it hands to the backend.
+pub(crate) fn on_assign_advice<F: Field>(v: Value<Rational<F>>) -> Value<Rational<F>> {
+    let active = PLAN.with(|p| p.borrow().is_some());
+    if !active {
+        return v;
+    }
+    v.map(|r| {
+        PLAN.with(|p| {
+            let mut guard = p.borrow_mut();
+            match guard.as_mut().and_then(|b| b.downcast_mut::<TamperPlan<F>>()) {
+                None => r,
+                Some(plan) => {
+                    let idx = plan.counter;
+                    plan.counter += 1;
+                    if !plan.targets.iter().any(|(i, _)| *i == idx) {
+                        return r;
+                    }
+                    let honest = r.evaluate();
+                    let mut out = honest;
+                    for (i, fault) in plan.targets.iter() {
+                        if *i == idx {
+                            out = fault(out);
+                        }
+                    }
+                    plan.hits.push((idx, honest, out));
+                    Rational::Trivial(out)
+                }
+            }
+        })
+    })
+}
